@@ -427,6 +427,34 @@ fn step_dbg3(kinds: &[bool], mask: u8) {
     std::mem::forget(set);
 }
 
+/// env_c_strings: the environment for executed programs is exactly the VISIBLE variables that are
+/// exported and have a value, as `name=value`.
+fn step_env(kinds: &[bool], mask: u8) {
+    let (set, model) = build(kinds, mask);
+    let mut top = None;
+    let mut i = 0;
+    while i < 3 {
+        if model[i].present {
+            top = Some(i);
+        }
+        i += 1;
+    }
+    let env = set.env_c_strings();
+    match top {
+        Some(t) if model[t].exported && model[t].has_value => {
+            assert!(env.len() == 1, "C16 exactly the exported visible variable is in the environment");
+            let b = env[0].to_bytes();
+            let tag = TAGS[model[t].tag].as_bytes();
+            assert!(b.len() == 4 && b[0] == b'x' && b[1] == b'=' && b[2] == tag[0] && b[3] == tag[1], "C16 the environment entry is name=current value");
+        }
+        _ => assert!(env.is_empty(), "C16 a variable that is hidden, not exported or has no value is not in the environment"),
+    }
+    kani::cover!(env.len() == 1, "exported variable reachable");
+    kani::cover!(env.is_empty() && top.is_some(), "non-exported variable reachable");
+    std::mem::forget(env);
+    std::mem::forget(set);
+}
+
 macro_rules! arm {
     ($name:ident, $step:ident, $kinds:expr, $mask:expr) => {
         #[kani::proof]
